@@ -975,7 +975,8 @@ func (e *Engine) isRoot(f *ssa.Function) bool {
 		return true
 	}
 	if c := e.contractOf[f]; c != nil && c.Flags["inline"] {
-		return false
+		// inlined at call sites; its own postconditions (if any) are still proved here
+		return len(c.clauses("ensures")) > 0
 	}
 	return !e.inlinable(f)
 }
